@@ -529,6 +529,27 @@ def r3(ctx, chk):
                "default_month = %s" % (ast.unparse(dm) if dm is not None else None),
                key={"function": cls_.key, "construct": "default month is a longest month"}, file=cls_.module.rel, function=cls_.name, line=None)
     domain_guard_rule(ctx, chk, "C15.R5")
+    # the calendar parsers read numeric fields under the caller's settings: nothing in the package overrides a setting
+    n_set = 0
+    for fn in ctx.ix.funcs.values():
+        if not fn.module.rel.startswith("dateparser/calendars/"):
+            continue
+        for n_ in iter_own_nodes(fn.node):
+            over = None
+            if isinstance(n_, ast.Call) and isinstance(n_.func, ast.Attribute) and n_.func.attr == "replace" and any(
+                    k.arg and k.arg.isupper() for k in n_.keywords):
+                over = ", ".join(k.arg for k in n_.keywords if k.arg and k.arg.isupper())
+            elif isinstance(n_, ast.Assign) and any(isinstance(t, ast.Attribute) and t.attr.isupper() and "settings" in ast.unparse(t.value).lower() for t in n_.targets):
+                over = ast.unparse(n_.targets[0])
+            if over:
+                n_set += 1
+                chk.ob("C15.R3", "%s does not override a setting (%s)" % (fn.qual, over), False,
+                       "the calendar parser replaces the caller's %s: numeric Jalali/Hijri dates written in the order the settings say "
+                       "(year-first under the default) are read in another order" % over,
+                       key={"function": fn.key, "construct": "settings override " + over}, file=fn.file, function=fn.qual, line=n_.lineno,
+                       text=" ".join(ast.unparse(n_).split())[:100])
+    chk.ob("C15.R3", "no function of dateparser/calendars overrides a setting of the caller", n_set == 0, "",
+           key={"construct": "no settings override in calendars"}, file="dateparser/calendars/__init__.py", function="-", line=None)
     # parse applies to_latin first and then the generic parser
     p = ix.func(NG + ".parse")
     t = " ".join(ast.unparse(p.node).split())
